@@ -38,6 +38,7 @@ func init() {
 	contextFunctions[symbols.NT_FilterExprWithPredicate] = execFilterExprWithPredicate
 	contextFunctions[symbols.NT_AxisName] = execAxisName
 	contextFunctions[symbols.NT_AbbreviatedStepParent] = execAbbreviatedStepParent
+	contextFunctions[symbols.NT_AbbreviatedStepSelf] = execAbbreviatedStepSelf
 	contextFunctions[symbols.NT_AbbreviatedAxisSpecifier] = execAbbreviatedAxisSpecifier
 	contextFunctions[symbols.NT_AbbreviatedAbsoluteLocationPath] = execAbbreviatedAbsoluteLocationPath
 	contextFunctions[symbols.NT_AbbreviatedRelativeLocationPath] = execAbbreviatedRelativeLocationPath
@@ -539,6 +540,16 @@ func execAbbreviatedStepParent(context *exprContext, expr *grammar.Grammar) erro
 	}
 
 	context.result = selectParent(nodeSet)
+	return nil
+}
+
+// "." is self::node(): like every other step it needs a node-set to start
+// from, so 1/. is an error just as 1/self::node() is.
+func execAbbreviatedStepSelf(context *exprContext, expr *grammar.Grammar) error {
+	if _, ok := context.result.(NodeSet); !ok {
+		return errQueryNonNodeset
+	}
+
 	return nil
 }
 
